@@ -10,7 +10,7 @@
    loaded cur = idler after its push has B+D <= cur for the rest of the epoch, so when it sees pending >= cur it
    knows B <= T+S, which then persists; if it sees idler = 0 then B = 0.  At quiescence S=A=D=K=0, hence T >= 1. *)
 From Coq Require Import ZArith Lia List Bool Arith.
-From PV Require Import Base.U64 E3.E3_Run C07.C07_Model C07.C07_Lists C07.C07_Chan_Model.
+From PV Require Import Base.U64 E3.E3_Run C07.C07_Model C07.C07_Lists C07.C07_Chan_Model C07.C07_Chan_Proofs.
 Import ListNotations.
 Local Open Scope Z_scope.
 
@@ -284,6 +284,7 @@ Section ChanInv.
   Ltac fin HG :=
     try lia; try (intros; lia); auto;
     try (let pc' := fresh "pc'" in let E' := fresh "E'" in
+         match goal with |- forall pc0, t_pc _ = Some pc0 -> _ => idtac end;
          intros pc' E'; cbn [thr_goto t_pc] in E';
          first [ apply fin_pc in E'; destruct E' as [? ->]; match goal with |- loc_ok _ _ (chan_entry ?o) => destruct o; exact Logic.I end
                | inversion E'; subst; cbn [loc_ok]; try exact Logic.I ]);
@@ -334,14 +335,14 @@ Section ChanInv.
         * plain st p I Hp Epc; fin HG. repeat split; try lia. intros Hi. specialize (Hin Hi). lia.
     - (* CSSignal *) plain st p I Hp Epc; fin HG.
     - (* CRPop1 *) destruct (c_q st) as [|x r] eqn:Eq.
-      + plain st p I Hp Epc; fin HG.
-      + plain st p I Hp Epc; fin HG; try (intros; discriminate).
+      + plain st p I Hp Epc; fin HG; try (intros Hne; congruence).
+      + plain st p I Hp Epc; fin HG; try (intros; rewrite Eq; discriminate).
         intros Hne. assert (Hx : x :: r <> []) by discriminate. specialize (HG Hx). simpl length in HG. rewrite Nat2Z.inj_succ in HG. lia.
     - (* CRYield0 *) plain st p I Hp Epc; fin HG.
     - (* CRIdInc *) rewrite (wrap_small (c_idler st + 1)) by lia. plain st p I Hp Epc; fin HG.
     - (* CRPop2 *) destruct (c_q st) as [|x r] eqn:Eq.
-      + destruct (0 <? yt); plain st p I Hp Epc; fin HG; try (intros Hne; contradiction).
-      + plain st p I Hp Epc; fin HG; try (intros; discriminate).
+      + destruct (0 <? yt); plain st p I Hp Epc; fin HG; try (intros Hne; congruence).
+      + plain st p I Hp Epc; fin HG; try (intros; rewrite Eq; discriminate).
         intros Hne. assert (Hx : x :: r <> []) by discriminate. specialize (HG Hx). simpl length in HG. rewrite Nat2Z.inj_succ in HG. lia.
     - (* CRYield *) plain st p I Hp Epc; fin HG.
     - (* CRSemWait *) destruct (Z.ltb_spec 0 (c_qsem st)); [|destruct (Nat.eqb f 1); [|exact I]]; plain st p I Hp Epc; fin HG.
@@ -357,4 +358,68 @@ Section ChanInv.
     - (* CNCasSp *) unfold notify_loop. destruct (c_spend st =? sp); [|destruct (cw <=? c_spend st)]; destruct dec; plain st p I Hp Epc; fin HG.
     - (* CNSignal *) unfold recv_done. destruct dec; plain st p I Hp Epc; fin HG.
   Qed.
+
+  Lemma sumn_zero w : (forall p, (p < n)%nat -> w p = 0) -> sumn n w = 0.
+  Proof. intros H. rewrite (sumn_ext n (fun _ => 0) w) by exact H. clear. induction n; simpl; lia. Qed.
+
+  Lemma init_inv scripts : length scripts = n -> CInv (chan_init scripts).
+  Proof.
+    intros Hl.
+    assert (Hpc : forall p, ob iB (t_pc (c_thr (chan_init scripts) p)) = 0 /\ ob iA (t_pc (c_thr (chan_init scripts) p)) = 0 /\
+                            ob iD (t_pc (c_thr (chan_init scripts) p)) = 0 /\ ob iN (t_pc (c_thr (chan_init scripts) p)) = 0 /\
+                            ob iS (t_pc (c_thr (chan_init scripts) p)) = 0 /\ wK (chan_init scripts) p = 0).
+    { intros p. unfold wK. simpl. unfold thr_init. destruct (nth p scripts []) as [|o r]; simpl; [repeat split; reflexivity|].
+      destruct o; repeat split; reflexivity. }
+    assert (Z0s : sB (chan_init scripts) = 0 /\ sA (chan_init scripts) = 0 /\ sD (chan_init scripts) = 0 /\
+                  sN (chan_init scripts) = 0 /\ sS (chan_init scripts) = 0 /\ sK (chan_init scripts) = 0).
+    { repeat split; apply sumn_zero; intros p _; unfold wi; apply Hpc. }
+    destruct Z0s as (A1 & A2 & A3 & A4 & A5 & A6).
+    constructor; rewrite ?A1, ?A2, ?A3, ?A4, ?A5, ?A6; simpl; try lia.
+    - intros p Hge. unfold thr_init. rewrite nth_overflow by lia. reflexivity.
+    - intros p pc E. unfold thr_init in E. destruct (nth p scripts []) as [|o r]; simpl in E; [discriminate|]. inversion E. destruct o; exact Logic.I.
+  Qed.
+
+  Lemma creach_inv scripts st : length scripts = n -> creach cap Y (chan_init scripts) st -> CInv st.
+  Proof. intros Hl R. induction R; [apply init_inv; exact Hl | apply chan_step_inv; exact IHR]. Qed.
+
+  (* the property: an invariant state is never a lost wake-up for the consumers *)
+  Lemma inv_no_lost_wakeup st : CInv st -> lost_wakeup_recv n st = false.
+  Proof.
+    intros I. destruct (lost_wakeup_recv n st) eqn:E; [exfalso|reflexivity].
+    unfold lost_wakeup_recv in E. rewrite !andb_true_iff in E. destruct E as (((Eq & ET) & Eex) & Eall).
+    rewrite forallb_forall in Eall. apply existsb_exists in Eex. destruct Eex as (pb & Hpb & Eb).
+    apply in_seq in Hpb.
+    assert (Hcl : forall p, (p < n)%nat -> wi iA st p = 0 /\ wi iD st p = 0 /\ wi iS st p = 0 /\ wK st p = 0).
+    { intros p Hp. specialize (Eall p ltac:(apply in_seq; lia)). unfold thr_state in Eall. unfold wi, wK.
+      destruct (t_pc (c_thr st p)) as [pc|]; [|repeat split; reflexivity].
+      destruct pc; simpl in Eall; try discriminate; repeat split; reflexivity. }
+    assert (ZA : sA st = 0) by (apply sumn_zero; intros p Hp; apply Hcl; exact Hp).
+    assert (ZD : sD st = 0) by (apply sumn_zero; intros p Hp; apply Hcl; exact Hp).
+    assert (ZS : sS st = 0) by (apply sumn_zero; intros p Hp; apply Hcl; exact Hp).
+    assert (ZK : sK st = 0) by (apply sumn_zero; intros p Hp; apply Hcl; exact Hp).
+    assert (HB : 1 <= sB st).
+    { unfold thr_state in Eb. replace 1 with (wi iB st pb).
+      - apply sumn_ge_term; [lia | intros q; apply ob_nonneg].
+      - unfold wi. destruct (t_pc (c_thr st pb)) as [pc|]; [|discriminate]. destruct pc; try discriminate. reflexivity. }
+    apply Z.eqb_eq in ET.
+    assert (Hne : c_q st <> []) by (destruct (c_q st); [discriminate|discriminate]).
+    destruct (ci_G st I Hne) as [G1|G2]; [|lia].
+    destruct (c_q st); [contradiction|]. simpl length in G1. lia.
+  Qed.
 End ChanInv.
+
+(* RingChannel, consumer side: in every reachable state of the protocol model — any number of participants, any
+   scripts of sends and recvs, any interleaving, any pattern of semaphore time-outs — it is NOT the case that the
+   queue is non-empty, queue_sem holds no token, some consumer is blocked in queue_sem.wait and every participant
+   inside an operation is such a blocked consumer. *)
+Theorem chan_no_lost_wakeup_recv cap Y scripts st :
+  Z.of_nat (length scripts) + 1 < W64 ->
+  creach cap Y (chan_init scripts) st -> lost_wakeup_recv (length scripts) st = false.
+Proof.
+  intros Hn R. apply inv_no_lost_wakeup. eapply creach_inv; [exact Hn | reflexivity | exact R].
+Qed.
+
+Example chan_reach_ex :
+  let st := fst (chan_step 2 0 (fst (chan_step 2 0 (fst (chan_step 2 0 (fst (chan_step 2 0 (chan_init [[OSend 7]; [ORecv]]) 1 0)) 1 0)) 1 0)) 1 0) in
+  creach 2 0 (chan_init [[OSend 7]; [ORecv]]) st /\ t_pc (c_thr st 1%nat) = Some CRSemWait /\ c_idler st = 1.
+Proof. cbv zeta. split; [repeat constructor | vm_compute; split; reflexivity]. Qed.
